@@ -175,6 +175,18 @@ HandleElementResult SaslManager::handleElement(const QDomElement &el)
     }
 
     if (Success::fromDom(el)) {
+        // With mutual authentication (SCRAM) the server's proof must have been checked; RFC 6120 6.4.6 allows it to
+        // arrive as additional data with success.
+        if (!m_saslClient->serverVerified()) {
+            const auto data = parseBase64(el.text());
+            if (!data || !m_saslClient->respond(*data) || !m_saslClient->serverVerified()) {
+                finish(AuthError {
+                    u"Server did not prove knowledge of the password"_s,
+                    AuthenticationError { AuthenticationError::ProcessingError, {}, {} },
+                });
+                return Finished;
+            }
+        }
         finish(QXmpp::Success());
         return Finished;
     } else if (auto challenge = Challenge::fromDom(el)) {
@@ -275,6 +287,15 @@ HandleElementResult Sasl2Manager::handleElement(const QDomElement &el)
             return Finished;
         }
     } else if (auto success = Success::fromDom(el)) {
+        // SCRAM: the server signature may arrive as <additional-data/>; it must have been verified either way
+        if (auto &sasl = *m_state->sasl; !sasl.serverVerified() &&
+            (!success->additionalData || !sasl.respond(*success->additionalData) || !sasl.serverVerified())) {
+            finish(AuthError {
+                u"Server did not prove knowledge of the password"_s,
+                AuthenticationError { AuthenticationError::ProcessingError, {}, {} },
+            });
+            return Finished;
+        }
         finish(std::move(*success));
         return Finished;
     } else if (auto failure = Failure::fromDom(el)) {
